@@ -413,6 +413,7 @@ func vfNonTrivial(id string, st *vfSMStats) (bool, []string) {
 	del := flag(st.dels > 0, "del")
 	clr := flag(st.clears > 0, "clear")
 	flag(st.clearBufferedNew, "clear-found-buffered-new-item")
+	flag(st.closedWithParkedSender > 0, "close-with-a-caller-parked-on-the-full-write-buffer")
 	flag(st.clearBufferedOther, "clear-found-buffered-update-or-tombstone")
 	flag(st.admissionsAfterEvict > 0, "admission-after-eviction")
 	flag(st.lateHit > 0, "hit-on-late-applied-insert")
